@@ -50,6 +50,7 @@ type Program struct {
 	byName      map[string]*ssa.Function
 	siteCallees map[ssa.CallInstruction][]*ssa.Function
 	renamed     map[string]string
+	fieldsRenamed map[string]string
 }
 
 // Options configures loading.
@@ -141,9 +142,19 @@ func Load(opt Options) (*Program, error) {
 	}
 	if opt.Module == "" {
 		p.resolveRenames()
+		p.resolveFieldRenames()
 		// helper functions that did not exist on the confirmed tree are spliced into their callers' paths
 		paths.Inlineable = func(g *ssa.Function) bool {
-			if g == nil || !p.inMod[g] || g.Synthetic != "" || g.Parent() != nil || g.Origin() != nil || len(g.Blocks) == 0 {
+			if g == nil || !p.inMod[g] || g.Parent() != nil || len(g.Blocks) == 0 {
+				return false
+			}
+			if g.Origin() != nil && strings.HasPrefix(g.Synthetic, "instance of") {
+				// a ground instance of a generic helper has its own body; what it is is decided on the generic function
+				o := g.Origin()
+				_, frozen := FrozenAnchors[paths.FuncName(o)]
+				return !frozen && o.Object() != nil && !o.Object().Exported() && o.Parent() == nil
+			}
+			if g.Synthetic != "" || g.Origin() != nil {
 				return false
 			}
 			if paths.TrivialWrapper(g) {
@@ -483,6 +494,81 @@ func (p *Program) resolveRenames() {
 	}
 }
 
+// libraryStructs lists the named struct types of the library packages, keyed "pkg.Type" (package relative
+// to the module).
+func (p *Program) libraryStructs() map[string]*types.Struct {
+	out := map[string]*types.Struct{}
+	for _, lp := range LibraryPackages {
+		sp := p.SSA[Module+"/"+lp]
+		if sp == nil {
+			continue
+		}
+		sc := sp.Pkg.Scope()
+		for _, n := range sc.Names() {
+			tn, ok := sc.Lookup(n).(*types.TypeName)
+			if !ok || tn.IsAlias() {
+				continue
+			}
+			if st, ok := tn.Type().Underlying().(*types.Struct); ok {
+				out[lp+"."+n] = st
+			}
+		}
+	}
+	return out
+}
+
+// FieldsRenamed lists the struct fields that were resolved by type (struct.canonical -> current name).
+func (p *Program) FieldsRenamed() map[string]string { return p.fieldsRenamed }
+
+// resolveFieldRenames binds frozen unexported field names that no longer exist in their struct to the unique
+// new field of the same type (the one at the same position when several qualify): a renamed field.
+func (p *Program) resolveFieldRenames() {
+	p.fieldsRenamed = map[string]string{}
+	for key, st := range p.libraryStructs() {
+		frozen, ok := FrozenFields[key]
+		if !ok {
+			continue
+		}
+		fnames := map[string]bool{}
+		for _, f := range frozen {
+			fnames[f.Name] = true
+		}
+		cur := map[string]bool{}
+		for i := 0; i < st.NumFields(); i++ {
+			cur[st.Field(i).Name()] = true
+		}
+		used := map[int]bool{}
+		for fi, f := range frozen {
+			if cur[f.Name] {
+				continue
+			}
+			var cands []int
+			for i := 0; i < st.NumFields(); i++ {
+				v := st.Field(i)
+				if fnames[v.Name()] || v.Exported() || used[i] || types.TypeString(v.Type(), nil) != f.Type {
+					continue
+				}
+				cands = append(cands, i)
+			}
+			pick := -1
+			if len(cands) == 1 {
+				pick = cands[0]
+			} else {
+				for _, c := range cands {
+					if c == fi {
+						pick = c
+					}
+				}
+			}
+			if pick >= 0 {
+				used[pick] = true
+				paths.FieldAlias[st.Field(pick)] = f.Name
+				p.fieldsRenamed[key+"."+f.Name] = st.Field(pick).Name()
+			}
+		}
+	}
+}
+
 // GenAnchors renders the frozen anchor table for the current tree.
 func GenAnchors(p *Program) string {
 	var names []string
@@ -508,6 +594,26 @@ func GenAnchors(p *Program) string {
 	sb.WriteString("// FrozenAnchors lists the unexported library functions of the tree the rules were confirmed on. When one of\n// these names is missing, the loader binds it to the unique function with the same package, receiver and\n// signature that carries an unknown name (a renamed function), so that renames do not unresolve anchors.\nvar FrozenAnchors = map[string]Anchor{\n")
 	for _, n := range names {
 		fmt.Fprintf(&sb, "\t%q: {%q, %q},\n", n, ents[n].Pkg, ents[n].Sig)
+	}
+	sb.WriteString("}\n")
+	sb.WriteString("\n// FrozenField is the frozen identity of a struct field: name and type.\ntype FrozenField struct{ Name, Type string }\n\n")
+	sb.WriteString("// FrozenFields lists the fields of the library's struct types on the tree the rules were confirmed on. When an\n// unexported one of these names is missing from its struct, the loader binds it to the unique new field of the\n// same type (a renamed field), so that renames of unexported fields change no term.\nvar FrozenFields = map[string][]FrozenField{\n")
+	structs := p.libraryStructs()
+	var keys []string
+	for k := range structs {
+		keys = append(keys, k)
+	}
+	sort.Strings(keys)
+	for _, k := range keys {
+		st := structs[k]
+		var fents []string
+		for i := 0; i < st.NumFields(); i++ {
+			v := st.Field(i)
+			fents = append(fents, fmt.Sprintf("{%q, %q}", v.Name(), types.TypeString(v.Type(), nil)))
+		}
+		if len(fents) > 0 {
+			fmt.Fprintf(&sb, "\t%q: {%s},\n", k, strings.Join(fents, ", "))
+		}
 	}
 	sb.WriteString("}\n")
 	return sb.String()
@@ -547,7 +653,7 @@ func (p *Program) owners(f *ssa.Function, lift bool) []*ssa.Function {
 			return
 		}
 		seen[g] = true
-		wrapper := g.Synthetic != "" && (strings.HasPrefix(g.Synthetic, "bound method") || strings.HasPrefix(g.Synthetic, "thunk") || strings.HasPrefix(g.Synthetic, "wrapper"))
+		wrapper := g.Synthetic != "" && (strings.HasPrefix(g.Synthetic, "bound method") || strings.HasPrefix(g.Synthetic, "thunk") || strings.HasPrefix(g.Synthetic, "wrapper") || strings.HasPrefix(g.Synthetic, "instan"))
 		if !wrapper && (!p.IsNewHelper(g) || paths.Inlineable == nil || !lift && !paths.Inlineable(g)) {
 			out[g] = true
 			return
